@@ -174,6 +174,9 @@ impl<'a> ParameterWriter<'a> {
 
 /// Serializes a message to a byte buffer.
 pub fn serialize(msg: &Message, out: &mut [u8]) -> Result<usize, SerializeError> {
+  // Never put on the wire what `deserialize` would reject.
+  msg.validate_parameters()?;
+
   let mut n = 0;
   let mut c = Cursor::new(out);
 
